@@ -99,6 +99,9 @@ STRENGTHENED = {
     'C11-10': 'a phase recorded as skipped in a failed subtest carrying a conditional validator whose diagnosis exists',
     'C12-10': 'bodies that end by raising, also behind the slow exit handler (the exception message is what gets delayed)',
     'C19-10': 'a station handler with a formatter and no MAC filter ahead of the record handlers, no console handler',
+    # eighth round (four properties)
+    'C06-10': 'dimensioned measurements whose transform / precision is declared before the dimensions (and precision on a dimensioned measurement at all)',
+    'C16-10': 'bare INFO packets (header only) and OKAY replies without text in the response sequences',
 }
 # caught at once, but by the check of a neighbouring property
 NEIGHBOUR = {
